@@ -6,8 +6,8 @@ CONSTANTS
   MaxSets = 3
   PointerReceiver = FALSE
   CacheDerived = FALSE
-  GlobalLock = FALSE
+  GlobalLock = TRUE
 SPECIFICATION Spec
-INVARIANTS SharedDerivedNeverWritten ResultIsFunctionOfFields FailedCallLeavesNothingHeld NoCallBlocked
+INVARIANTS NoCallBlocked
 PROPERTIES CallsLeaveFieldsUnchanged
 CHECK_DEADLOCK FALSE
